@@ -286,7 +286,7 @@ class ServiceRunner(RunnerBase):
       return 'ok'
     if k == 'complete':
       req = vsp.CompleteTrialRequest(name=self.tname(op['id']), trial_infeasible=bool(op.get('infeasible')),
-                                     infeasible_reason='bad' if op.get('infeasible') else '')
+                                     infeasible_reason=('bad' if op['id'] % 2 else '') if op.get('infeasible') else '')   # even ids: infeasible WITHOUT a reason text
       if not op.get('infeasible'):
         req.final_measurement.metrics.add(metric_id='obj', value=1.0)
       self.sv.CompleteTrial(req)
@@ -380,7 +380,7 @@ class InRamRunner(RunnerBase):
       if len(got) != op['count']:
         return 'short:%d' % len(got)
     elif k == 'complete':
-      self._trial(op['id']).complete(vz.Measurement({'obj': 1.0}), infeasibility_reason='bad' if op.get('infeasible') else None)
+      self._trial(op['id']).complete(vz.Measurement({'obj': 1.0}), infeasibility_reason=('bad' if op['id'] % 2 else '') if op.get('infeasible') else None)
     elif k == 'add_completed':
       t = vz.Trial(parameters={'x': float(self.rec.token())})
       t.complete(vz.Measurement({'obj': 2.0}))
